@@ -44,6 +44,26 @@ Theorem C12_later_directories_irrelevant :
 Proof. exact search_ignores_later. Qed.
 Print Assumptions C12_later_directories_irrelevant.
 
+(* textual inclusion, the directory side: the innermost token source carries the directory that lookups start in; an
+   @include pushes the included file with ITS directory, and when a source is exhausted the pump goes on in the source
+   below it, i.e. lookups continue relative to the including file again *)
+Theorem C12_included_file_brings_its_directory :
+  forall s src d, cur_dir (u_src s ((src, d) :: f_src s)) = d.
+Proof. exact cur_dir_of_pushed. Qed.
+Print Assumptions C12_included_file_brings_its_directory.
+
+Theorem C12_exhausted_source_is_popped :
+  forall budget pk' n s d rest,
+    f_stash s = None -> f_src s = (SrcToks [], d) :: rest ->
+    pk_loop budget pk' (S n) s = pk_loop budget pk' n (u_src s rest).
+Proof. exact exhausted_source_is_popped. Qed.
+Print Assumptions C12_exhausted_source_is_popped.
+
+Theorem C12_directory_of_the_source_below :
+  forall s d' src' rest, cur_dir (u_src s ((src', d') :: rest)) = d'.
+Proof. exact cur_dir_after_pop. Qed.
+Print Assumptions C12_directory_of_the_source_below.
+
 (* non-vacuity: the same name in the including file's directory and in two -I directories *)
 Example C12_example :
   let f (n : N) := [n] in
